@@ -34,7 +34,7 @@ if _SCALE != 1.0:
             BUDGET[_p][_t] = max(1600, int(BUDGET[_p][_t] * _SCALE))
 
 COMPONENTS = {
-    "real": ["the whole tz-rs crate built from /repo's working tree", "std threads (one OS thread per simulated client/installer/environment actor)", "the process environment (TZ, TZDIR, LANG, LC_ALL really set/unset)", "the system allocator underneath the counting wrapper"],
+    "real": ["the whole tz-rs crate built from /repo's working tree", "std threads (one OS thread per simulated client/installer/environment actor)", "the process environment (TZ, TZDIR, LANG, LC_ALL really set/unset)", "the system allocator underneath the counting wrapper", "C15 live operations: real files under target/live/<pid>, replaced by write + rename, read by std::fs::read through the library's default settings; the system calls are real, who runs between them is decided by the scenario (shim callback)"],
     "stub": ["filesystem: in-memory SimFs behind TimeZoneSettings' read function", "clock: simulated reading through the cfg(tz_rs_verif) hook", "scheduler: baton passed at operation boundaries and inside the read seam, decided by the scenario", "installer / zic: the harness's independent TZif writer and typed-corruption catalogue"],
 }
 
